@@ -15,7 +15,14 @@ LEVEL_TEXT = ("partial: Coq theorems over a small-step interleaving model of bot
               "sampled by a -race stress run (thorough tier), not proved; the runner's oracle judges every finished "
               "execution: without size limit by the sequential specification seq_exec, with the size limit by the "
               "sub-action specification qstep (Model/ConcEnfSpec.v)")
-LEVEL_NOTE = ("WITH the size limit the store is legitimately weaker than the sequential C08 specification and the oracle encodes "
+LEVEL_NOTE = ("FAULT FAMILY: the models have no I/O errors. Cases of kind 'fault' (a directory planted at <mailbox dir>/index.gob.tmp "
+              "= persistent failure of that mailbox's index rewrite; stands for disk full / read-only / lost permission) are "
+              "judged by the clause directly — every operation must RETURN (error or not) and the lock-bucket neighbour must be "
+              "served: verdicts fail:operation-never-returns-after-io-failure / fail:bucket-neighbour-blocked (per-operation "
+              "deadline; a worker in which something hung is killed) — and their expected observation is simply what the "
+              "unchanged file store does, written down in the runner: a rewrite of that index fails with an error and changes "
+              "nothing, reads keep working, removing the last message or purging deletes the directory and with it the fault. "
+              "WITH the size limit the store is legitimately weaker than the sequential C08 specification and the oracle encodes "
               "exactly this (Model/ConcEnfSpec.v, extracted): an operation is a sequence of atomic sub-actions inside its "
               "call/return interval (delivery: insert+cap | tell the enforcer each cap eviction | register | unlink each victim; "
               "removal: unlink | tell; purge: unlink all | tell each in any order); the enforcer's book changes only at tell / "
@@ -43,7 +50,9 @@ RULE = ("combos (store configuration, sequential prefix history, 2-3 concurrent 
         "goroutine parked at verifhook.Point sites; distinct = distinct (combo, schedule); non-trivial = at least two operations "
         "interleave (a context switch between client goroutines or with the enforcer); plus free-running streams on one lock "
         "bucket of both stores: burst (seeded; 250 rounds of 3 concurrent operations per case, each round judged by the "
-        "linearizability oracle) and stress (4 goroutines x 300 operations, history conservation checks); every such case is "
+        "linearizability oracle) and stress (4 goroutines x 300 operations, history conservation checks); plus the fault "
+        "family (file store, with and without cap: the index of one mailbox can no longer be rewritten, then 3-13 operations "
+        "on it, on its lock-bucket neighbour and on another bucket, each under a 1.5 s deadline); every such case is "
         "non-trivial")
 TRUSTED = [
     "Go runtime: sync.Mutex/RWMutex give mutual exclusion, an unbuffered channel send completes only with a receive, close(done) releases the waiter (modelled, not verified)",
@@ -71,7 +80,7 @@ def project(kind, ins, outs):
 
 
 def nontrivial(kind, ins, outs):
-    if kind in ("stress", "burst"):
+    if kind in ("stress", "burst", "fault"):
         return True
     s = ins[-1].rstrip("!")
     clients = [c for c in s if c != "e"]
